@@ -468,7 +468,8 @@ def trace_part(ck):
             break
     if len(bad) < 3:
         ck.machinery_failure("could not build corrupted traces")
-    bad += wide_corruptions(ck, wide)
+    wbad = wide_corruptions(ck, wide)
+    bad += wbad
     tfb = os.path.join(ck.wd, "trace-corrupt.json")
     with open(tfb, "w") as fh:
         json.dump(bad, fh)
@@ -476,6 +477,11 @@ def trace_part(ck):
     rej = [p for p in t.printed if "reject" in p]
     if len(rej) != len(bad):
         ck.machinery_failure("corrupted trace lines not all rejected: %s of %d" % (rej, len(bad)))
+    if len(wbad) == 2:
+        got = [p["clause"] for p in rej if p["reject"] > len(bad) - 2]
+        if got != ["GtDotIffExcluded", "GtAlleleNumberIsAltIndex"]:
+            ck.machinery_failure("corrupted wide traces rejected by unexpected clauses: %s" % got)
+        ck.note("corrupted_wide_traces_rejected", 2)
     ck.note("corrupted_traces_rejected", len(rej))
 
 
